@@ -128,6 +128,30 @@ class FixedDecimals(Harness):
             if (m if m[0] == 'ok' else (m[0], None)) != nn: mism.append('straight(%r,%r): mir %r native %r' % (a, b, m, n))
         return len(cs), mism
 
+class NumberPath(FixedDecimals):
+    """the same obligation one level up: format_as_number prepares the text (to_string, scale, pattern clean-up by regexes) and calls the kernel"""
+    name = 'number.format_as_number'
+    entry = [NF + 'format_as_number', NF + 'format_straight_numeric_value']
+    def __init__(self, tier):
+        self.mi, self.mf, self.mk = (3, 4, 3) if tier == 'quick' else (6, 8, 5)
+        self.doc = 'format_as_number(&f64, pattern) on a number given by its shortest decimal text (f64::to_string / parse trusted, x / 1.0 == x): patterns 0, 0.0 .., #,##0, #,##0.0 ..: exact decimal rounding half away from zero'
+        self.bounds = {'integer_digits': [1, self.mi], 'fraction_digits': [0, self.mf], 'pattern_decimals': [0, self.mk], 'thousands': [False, True], 'sign': ['+', '-'], 'scale_commas': 'none (a scaled value needs float arithmetic)'}
+    def run(self, it, ctx, res):
+        from engine.models import F64Text
+        k = ctx.sym_int('k', 0, self.mk); k = next(x for x in range(self.mk + 1) if ctx.branch(k == x))
+        th = ctx.branch(ctx.sym_bool('thousands'))
+        neg, I, F = sym_number_text(ctx, self.mi, self.mf)
+        text = ([45] if neg else []) + I + ([46] + F if F else [])
+        pat = ('#,##0' if th else '0') + ('.' + '0' * k if k else '')
+        info = {'k': k, 'thousands': th, 'ni': len(I), 'nf': len(F), 'neg': neg}
+        try:
+            out = it.call(NF + 'format_as_number', [Ref(Box_(F64Text(text))), sref(pat)])
+        except Panic as e:
+            self.fail(ctx, res, 'no-panic', str(e), info=info); return
+        o = deref_all(out.fields[0]) if isinstance(out, Adt) else deref_all(out)
+        self.oblige(ctx, res, 'rounded-to-pattern', check_output(ctx, o.chars, neg, I, F, k, th), info=info)
+    def validate(self, it, seed): return 0, []
+
 class Percentage(Harness):
     name = 'percentage'; property_id = 'C19'
     entry = [PF + 'format_as_percentage', NF + 'round_decimal_text']
@@ -160,4 +184,4 @@ class Percentage(Harness):
         return (r[0] != 'ok' or got != exp), 'Cell %s formatted with %r -> %s %r expected %r' % (case['number'], case['pattern'], r[0], got if r[0] == 'ok' else r[1], exp)
 
 def harnesses(tier):
-    return [FixedDecimals(tier), Percentage(tier)]
+    return [FixedDecimals(tier), NumberPath(tier), Percentage(tier)]
